@@ -7,6 +7,8 @@
 (*                                            wherever the reference is     *)
 (*                                            defined                       *)
 (*   nearest_idx  [cvs, xs, obs]              obs[i] = NearestMulti(xs[i])  *)
+(*   history      [fn, cvs, calls]            every call of a behaviour on  *)
+(*                ONE function object: obs = ExpectCall(fn, cvs, dt)       *)
 (* TOTAL: a rejected event prints <<"FAIL", line, id, clauses>> and the    *)
 (* validation continues; TraceAccepted checks every line was consumed.     *)
 (***************************************************************************)
@@ -29,6 +31,14 @@ Clauses(e) ==
     [] e.kind = "nearest_idx" ->
          IF Len(e.obs) # Len(e.xs) THEN {<<"length", 0>>}
          ELSE {<<"node", i>> : i \in {i \in 1..Len(e.xs) : NearestMulti(e.cvs, e.xs[i]) # e.obs[i]}}
+    [] e.kind = "history" ->
+         UNION {LET c == e.calls[j]
+                IN  IF c.kind = "mutate" THEN {}
+                    ELSE IF c.err # "" THEN {<<"raised", j>>}
+                    ELSE LET exp == ExpectCall(e.fn, e.cvs, c.dt)  def == DefinedCall(e.fn, e.cvs, c.dt)
+                         IN  IF Len(c.obs) # Len(exp) THEN {<<"length", j>>}
+                             ELSE IF \E t \in 1..Len(exp) : def[t] /\ c.obs[t] # exp[t] THEN {<<"hist", j>>} ELSE {}
+                : j \in 1..Len(e.calls)}
     [] OTHER -> {<<"unknown-kind", 0>>}
 
 TraceInit == l = 1
